@@ -157,7 +157,7 @@ Call ==
           /\ ~(c.op \in {"remove", "removeall", "rename"} /\ rp.err = "ok" /\ rp.id # Root /\ rp.id \in Range(st.cwd))
           \* C11 speaks of relative paths only "once the view's working directory has been set through the view":
           \* when the parent had a working directory of its own, a relative path needs a Chdir through the view first
-          /\ ((Kind = "sub" /\ st.cwdn # <<>> /\ ((~c.p.abs /\ c.op \notin {"getwd", "setumask"}) \/ (c.op \in {"rename", "link"} /\ ~c.q.abs)))
+          /\ ((Kind = "sub" /\ st.cwdn # <<>> /\ ((~c.p.abs /\ c.op # "setumask") \/ (c.op \in {"rename", "link"} /\ ~c.q.abs)))
                  => (last.call.op = "chdir" /\ last.res.err = "ok" /\ wh # <<>>))
           \* under a fault plan only calls that consult the planned primitive are of interest
           \* (opening a handle is allowed too: the File primitives can only be consulted on one)
